@@ -40,6 +40,13 @@ Spec == Init /\ [][Next]_vars
 ObsReqs(X) == {r \in GoodReqs(X) : \E k \in DOMAIN r.fields : r.fields[k] = "obs"}
 InvSameCases == SameCases(ctx, GoodReqs(ctx))
 InvSameObs   == SameObs(ctx, ObsReqs(ctx))
+\* Under -T the observations an input is scored against are the windows over ITS OWN grid: inputs with their own observations on
+\* DIFFERENT grids are then scored against different aggregated observations (TLC's counterexample: lead times {0,12,24,36} next to
+\* {0,12,36}, -T 24: the window ending at 36 h holds two values in one file and one in the other).  SameObs is a theorem of the
+\* composed specification only for inputs that list the same values along the -T axis.
+SameTGrid == \A j, k \in DOMAIN D.inputs : (D.inputs[j].hasObs /\ D.inputs[k].hasObs) =>
+                IF O.T[3] = "leadtime" THEN Elems(D.inputs[j].leads) = Elems(D.inputs[k].leads) ELSE Elems(D.inputs[j].times) = Elems(D.inputs[k].times)
+InvSameObsT  == ("T" \in O.given /\ SameTGrid) => SameObs(ctx, ObsReqs(ctx))
 InvDims      == DimsWellFormed(ctx)
 InvPartition == \A a \in MenuAxes : Partition(ctx, a)
 \* C01 non-interference, as a two-copy property: bump every non-missing forecast of input k
